@@ -51,6 +51,8 @@ class Edits:
         dels = [(p_, p_ + d_) for (_i, (p_, d_, i_, _o)) in es if d_ > 0 and i_ == '']
         def swallowed(idx, pos, dl, ins):
             for a, b in dels:
+                if a == pos and dl == 0:
+                    continue          # a pure insertion at the start of a deleted region stays
                 if a <= pos < b and not (a == pos and b == pos + dl and ins == ''):
                     if (b - a) > dl or ins != '':
                         return True
